@@ -266,6 +266,116 @@ def acceptor_peer_event(event, after):
         raise Violation('%s:acceptor-event:not-ended' % PROP, 'provider not stopped', case)
 
 
+# ---- loopback: a scripted raw-socket peer against the real requesting stack ------------------------------
+def _read_pdu(conn):
+    import struct
+    hdr = b''
+    while len(hdr) < 6:
+        chunk = conn.recv(6 - len(hdr))
+        if not chunk:
+            return None
+        hdr += chunk
+    n = struct.unpack('>I', hdr[2:6])[0]
+    body = b''
+    while len(body) < n:
+        chunk = conn.recv(n - len(body))
+        if not chunk:
+            return None
+        body += chunk
+    return hdr + body
+
+
+def loopback_case(kind, values, mode):
+    """kind 'abort': the peer answers the first C-ECHO and aborts with (source, reason), the A-ABORT written
+    together with the response ('coalesced') or separately, then closes at once.  kind 'reject': the peer answers
+    the request with A-ASSOCIATE-RJ(result, source, reason) and closes at once."""
+    import socket
+    import threading
+    import time
+    from pynetdicom2 import applicationentity, sopclass, exceptions
+    from .. import refpdu, refcmd, loopback as lb
+    case = {'kind': 'loopback', 'what': kind, 'values': list(values), 'mode': mode}
+    srv = socket.socket(socket.AF_INET, socket.SOCK_STREAM)
+    srv.bind(('127.0.0.1', 0))
+    srv.listen(1)
+    port = srv.getsockname()[1]
+    errors = []
+
+    def peer():
+        try:
+            conn, _ = srv.accept()
+            conn.settimeout(10)
+            rq = refpdu.parse_pdu(_read_pdu(conn))
+            if kind == 'reject':
+                conn.sendall(refpdu.enc_pdu({'t': 3, 'result': values[0], 'source': values[1], 'reason': values[2]}))
+                conn.close()
+                return
+            pcs = [it for it in rq['items'] if it['t'] == 0x20]
+            conn.sendall(refpdu.enc_pdu(fd.ac_spec([(it['id'], 0, svc.IMPLICIT) for it in pcs], 16384)))
+            req = refpdu.parse_pdu(_read_pdu(conn))
+            cmd, _ = refcmd.wellformed(req['pdvs'][0]['data'][1:])
+            rsp = refcmd.encode({0x0002: svc.VERIFICATION, 0x0100: 0x8030, 0x0120: cmd.get(0x0110), 0x0800: 0x0101, 0x0900: 0})
+            rsp_pdu = refpdu.enc_pdu({'t': 4, 'pdvs': [{'id': req['pdvs'][0]['id'], 'data': b'\x03' + rsp}]})
+            abort = refpdu.enc_pdu({'t': 7, 'source': values[0], 'reason': values[1]})
+            if mode == 'coalesced':
+                conn.sendall(rsp_pdu + abort)
+            else:
+                conn.sendall(rsp_pdu)
+                time.sleep(0.3)
+                conn.sendall(abort)
+            conn.close()
+        except Exception as exc:      # noqa
+            errors.append(exc)
+        finally:
+            srv.close()
+    th = threading.Thread(target=peer, daemon=True)
+    th.start()
+    ae = applicationentity.ClientAE('CLI', [svc.IMPLICIT])
+    ae.timeout = 6
+    ae.add_scu(sopclass.verification_scu)
+    raised = None
+    first = None
+    try:
+        with ae.request_association({'aet': 'SRV', 'address': '127.0.0.1', 'port': port}) as assoc:
+            first = int(assoc.get_scu(svc.VERIFICATION)(1))
+            time.sleep(0.5)
+            assoc.get_scu(svc.VERIFICATION)(2)
+    except exceptions.DCMTimeoutError:
+        raise lb.Inconclusive('library time-out')
+    except Exception as exc:
+        raised = exc
+    th.join(5)
+    if errors:
+        raise lb.Inconclusive('scripted peer failed: %r' % (errors[0],))
+    if kind == 'reject':
+        if not isinstance(raised, exceptions.AssociationRejectedError) or \
+                (raised.result, raised.source, raised.diagnostic) != tuple(values):
+            raise Violation('%s:loopback:reject' % PROP, 'peer rejected with %r, requester saw %r %r'
+                            % (tuple(values), raised, getattr(raised, '__dict__', None)), case)
+        return
+    if first != 0:
+        raise Violation('%s:loopback:first-exchange' % PROP, 'first C-ECHO returned %r (%r)' % (first, raised), case)
+    if not isinstance(raised, exceptions.AssociationAbortedError) or (raised.source, raised.reason_diag) != tuple(values):
+        raise Violation('%s:loopback:abort-fields' % PROP, 'peer aborted with (source, reason) = %r (%s), requester saw %r %r'
+                        % (tuple(values), mode, raised, getattr(raised, '__dict__', None)), case)
+
+
+def run_loopback(ctx, n_rounds):
+    from .. import loopback as lb
+    cases = [('abort', (2, 6), 'coalesced'), ('abort', (0, 0), 'coalesced'), ('abort', (2, 1), 'separate'),
+             ('abort', (1, 9), 'coalesced'), ('reject', (1, 1, 3), 'immediate'), ('reject', (2, 3, 2), 'immediate')]
+    for r in range(n_rounds):
+        for kind, values, mode in cases:
+            try:
+                loopback_case(kind, values, mode)
+                ctx.case(('loopback', kind, values, mode, r), True, labels=['loopback-raw-peer', kind, mode],
+                         sample={'loopback': kind, 'values': values, 'mode': mode})
+            except lb.Inconclusive:
+                ctx.inconclusive += 1
+            except Violation as v:
+                ctx.fail(v.key, v.what, v.case)
+
+
 # ------------------------------------------------------------------------------------------------
 def run(ctx):
     warnings.simplefilter('ignore')
@@ -274,10 +384,11 @@ def run(ctx):
                 'or A-RELEASE-RQ arriving before any DIMSE exchange, between two exchanges, inside a half-consumed '
                 'C-FIND response stream and during a multi-fragment C-STORE; leaving request_association normally or '
                 'through 3 exception types / an exception raised while an SCU generator is half consumed; acceptor '
-                'side peer abort/release after 0-3 served requests; non-trivial = non-default field values or an event '
+                'side peer abort/release after 0-3 served requests; 6 loopback cases with a raw-socket peer; non-trivial = non-default field values or an event '
                 'in mid-exchange')
     ctx.assumptions = ['provider replaced by vf/fakedul.py (the own handling by the provider of these PDUs is C04/C05)',
-                       'loopback composition of two real stacks is part of the abort scenarios of C20']
+                       'a raw-socket scripted peer exercises the real requesting stack over loopback (A-ABORT coalesced with a response and '
+                       'followed by an immediate close; A-ASSOCIATE-RJ followed by an immediate close); time-outs there are inconclusive']
     for t in STANDARD_RJ:
         ctx.case(('acc-rj', t), True, labels=['acceptor-reject', 'standard'], sample={'reject': t})
         ctx.check(acceptor_reject, t)
@@ -300,6 +411,7 @@ def run(ctx):
             ctx.case(('acc-ev', ev, after), after > 0 or ev[1:] not in ((), (0, 0)), labels=['acceptor-peer-' + ev[0]])
             ctx.check(acceptor_peer_event, ev, after)
 
+    run_loopback(ctx, 5 if ctx.thorough else 1)
     n = 3000 if ctx.thorough else 150
 
     def fn(value):
@@ -330,5 +442,11 @@ def replay(case):
         requester_peer_event(case['position'], case['exchange'], tuple(case['event']))
     elif k == 'requester-exit':
         requester_exit(case['mode'], case['where'])
+    elif k == 'loopback':
+        from .. import loopback as lb
+        try:
+            loopback_case(case['what'], tuple(case['values']), case['mode'])
+        except lb.Inconclusive as inc:
+            print('inconclusive: %s' % inc)
     else:
         acceptor_peer_event(tuple(case['event']), case['after'])
